@@ -62,4 +62,12 @@ NOTES['C13'] = {'technique': 'Lean 4 proof (per-level window/visit/tick lemmas o
     'note': 'Trusted: Lean kernel; white-box differential bounded by generated sequences. PARTIAL: the lift of the level lemmas through the nested bucket loops of DeleteExpired (every due node is in the expired list, for all wheels) is not mechanised - it is checked by the oracle on every sweep of every run. '
             'The interleaving of a write with maintenance is covered at wheel level (deadlines behind the wheel time) not with real goroutines; lossy read-buffer drops (reads that shorten deadlines) are excluded as the property states.'}
 
+NOTES['C14'] = {'technique': 'Lean 4 proof (inductive invariant of the drain-status protocol as a counter machine over unboundedly many threads) + regenerated skeleton equality + concurrent quiescence oracle',
+    'engine': 'proof+gen-skeleton+conc-drain',
+    'text': 'Theorems over ALL interleavings and ANY number of writers/readers/schedulers/drainers/lock holders: 11-conjunct invariant is inductive (46 step kinds, omega); every reachable all-returned configuration has status idle and an empty write buffer; '
+            'no deadlock; a write arriving during a maintenance is owned by a writer that will still mark the status or by a pending drain. Tie: the skeleton of 17 protocol functions is regenerated from cache_impl.go every run and must equal the snapshot the model was written against (decide); '
+            'CONC-drain evaluates the conclusion on the real cache with real goroutines and the default executor.',
+    'note': 'Trusted: Lean kernel; skeleton extractor; the reading of the snapshot into the model locations (manual, documented in Conc/Drain.lean); atomics sequentially consistent, mutex exclusion. '
+            'PARTIAL: liveness is proved in safety form (no stranded quiescent state + progress); Go scheduler fairness is assumed; custom (non-default) executors do not reschedule by design and are outside the property.'}
+
 NOT_APPLICABLE = {}
